@@ -12,6 +12,7 @@ package main
 import (
 	"encoding/json"
 	"fmt"
+	"strings"
 	"time"
 
 	metav1 "k8s.io/apimachinery/pkg/apis/meta/v1"
@@ -166,7 +167,12 @@ func pickDuringWrite(ci *clusters.ClusterInfo, all bool, e int) pickObs {
 	}
 	s := newCoSched()
 	s.Go(func() { info.UpdateStatus(true, "", "") })
-	clusters.VerifYield = s.Yield
+	// only the writer is under the scheduler: the picker's own schedule points (Pop:...) must not reach it
+	clusters.VerifYield = func(label string) {
+		if strings.HasPrefix(label, "SetStatus:") {
+			s.Yield(label)
+		}
+	}
 	s.launch(s.gs[0]) // parked in front of SetStatus' Lock
 	s.step(0)         // Lock taken; parked in front of the deferred Unlock: the write is in progress
 	done := make(chan pickObs, 1)
